@@ -177,6 +177,9 @@ func Explore(cfg *Config) (*Report, error) {
 			m.KnownListed = cfg.KnownListed
 			m.Trace = cfg.Trace
 			m.Witness = cfg.Witness
+			if os.Getenv("SYMGO_DECIDE_PROFILE") != "" {
+				m.DecideProfile = map[string]int64{}
+			}
 			m.TolerantInit = cfg.Tolerant
 			m.NoopPkgs = func(p string) bool { return p == "log/slog" || p == "log" }
 			if len(cfg.Stubs) > 0 {
@@ -280,6 +283,9 @@ func Explore(cfg *Config) (*Report, error) {
 			rep.FuncHits = m.FuncHits
 			rep.IntrHits = m.IntrHits
 			rep.SkippedInits = m.SkippedInits
+			for k, v := range m.DecideProfile {
+				rep.IntrHits["decide@"+k] += v
+			}
 			if solver.Errors > 0 {
 				rep.Inconclusive = append(rep.Inconclusive, fmt.Sprintf("solver printed %d (error lines", solver.Errors))
 			}
